@@ -38,8 +38,18 @@ Theorem C14_load : forall t i o, In (T_load rule cval content i, o) (hist (th s 
   o = [OUnit; ORule (content (fst i) (snd i))].
 Proof. exact (load_returns_content rule cval content compile progs progs_allowed c0 c0_good sched). Qed.
 Theorem C14_lookup : forall t i o, In (T_lookup rule cval i, o) (hist (th s t)) ->
-  o = [ORule None] \/ exists r, o = [ORule (Some r)] /\ content (fst i) (snd i) = Some r.
+  o = [OInst i None] \/ exists r x, o = [OInst i (Some (r, x))] /\ content (fst i) (snd i) = Some r.
 Proof. exact (lookup_returns_content rule cval content compile progs progs_allowed c0 c0_good sched). Qed.
+Theorem C14_insert : forall t i r x o, In (T_insert rule cval i r x, o) (hist (th s t)) ->
+  exists r' x', o = [OInst i (Some (r', x'))] /\ content (fst i) (snd i) = Some r'.
+Proof. exact (insert_returns_content rule cval content compile progs progs_allowed c0 c0_good sched). Qed.
+(* ONE OBJECT PER INDEX: all objects the cache ever hands out for one index, to any goroutine, by lookup or insert,
+   are the same object (the lookup tables de-duplicate by identity; the pinned tree violated this: F17) *)
+Theorem C14_single_instance : forall t1 t2 tk1 tk2 o1 o2 i v1 v2,
+  In (tk1, o1) (hist (th s t1)) -> In (tk2, o2) (hist (th s t2)) ->
+  t_lock tk1 = LCache -> t_lock tk2 = LCache ->
+  In (OInst i (Some v1)) o1 -> In (OInst i (Some v2)) o2 -> v1 = v2.
+Proof. exact (single_instance rule cval content compile progs progs_allowed c0 c0_good sched). Qed.
 Theorem C14_prepare : forall t r o, In (T_prepare rule cval compile r, o) (hist (th s t)) -> o = [OVal (compile r)].
 Proof. exact (prepare_returns_compile rule cval content compile progs progs_allowed c0 c0_good sched). Qed.
 Theorem C14_cache_within_lists : writer s LCache = None -> EGood rule cval content compile LCache (comp s LCache).
@@ -53,12 +63,27 @@ End Statements.
 Print Assumptions C14_no_conflict.
 Print Assumptions C14_load.
 Print Assumptions C14_lookup.
+Print Assumptions C14_insert.
+Print Assumptions C14_single_instance.
 Print Assumptions C14_prepare.
 Print Assumptions C14_cache_within_lists.
 Print Assumptions C14_progress.
 
 (* the generic fact behind them: lock-protected regions are atomic, for any lock family, component type,
    component invariant and strategies *)
+(* what a goroutine was told stays true: outputs valid for the component a region left behind remain valid for
+   every later committed value, provided components only evolve along [Ext] *)
+Theorem C14_outputs_stay_valid : forall lk lk_eq_dec C out Good progs,
+  (forall t h tk, consistent lk C out progs t h -> hist_ok lk C out Good h -> progs t h = Some tk -> tk_ok lk C out Good tk) ->
+  forall (Ext : lk -> C -> C -> Prop) (Valid : task lk C out -> list out -> C -> Prop),
+  (forall tk o c c', Valid tk o c -> Ext (t_lock tk) c c' -> Valid tk o c') ->
+  (forall t h tk, consistent lk C out progs t h -> hist_ok lk C out Good h -> progs t h = Some tk -> tk_valid lk C out Good Ext Valid tk) ->
+  forall c0 sched t tk o, (forall k, Good k (c0 k)) ->
+  In (tk, o) (hist (th (run lk lk_eq_dec C out (init lk C out c0 progs) sched) t)) ->
+  Valid tk o (committed lk C out (run lk lk_eq_dec C out (init lk C out c0 progs) sched) (t_lock tk)).
+Proof. exact outputs_stay_valid. Qed.
+Print Assumptions C14_outputs_stay_valid.
+
 Theorem C14_regions_atomic : forall lk lk_eq_dec C out Good progs,
   (forall t h tk, consistent lk C out progs t h -> hist_ok lk C out Good h -> progs t h = Some tk -> tk_ok lk C out Good tk) ->
   forall c0, (forall k, Good k (c0 k)) -> forall sched t tk o,
